@@ -13,7 +13,7 @@ PROP = dict(
     rule="case = one generated model (3..8 report steps) with up to 6 cut points x 3 tail variants, or one shipped deck with up to 6 "
          "cuts; non-trivial: at least one cut compared and the tail contains keywords; distinct = hash of the deck text",
     stages=[
-        dict(id="gen", harness="c03_causal", flavour="plain", cases={Q: 1200, T: 40000}, timeout={Q: 900, T: 7200}, args=["mode=gen"]),
+        dict(id="gen", harness="c03_causal", flavour="plain", cases={Q: 1200, T: 120000}, timeout={Q: 900, T: 7200}, args=["mode=gen"]),
         dict(id="shipped", harness="c03_causal", flavour="plain", cases={Q: 64, T: 640}, timeout={Q: 1200, T: 7200}, args=["mode=shipped"], tier_args={T: ["max_cuts=40"]}),
     ],
     min_nontrivial={Q: 400, T: 9645},
